@@ -332,9 +332,30 @@ def first_tagged(sk, cfg):
     return ""
 
 
+def env_empty_stream(ctx, res, n):
+    """fields bound to environment variables that are set but empty: the saved values come back"""
+    import cincoconfig as cc
+    for i in range(n):
+        with P.EmptyEnv(ctx.rng, "C02") as ee:
+            cfg = ee.schema()
+            cfg.load_tree(copy.deepcopy(ee.values))
+            for fmt in FORMATS:
+                res.case(("env-empty", fmt, i), kind="env-empty:" + fmt)
+                fresh = ee.schema()
+                try:
+                    fresh.loads(cfg.dumps(format=fmt), format=fmt)
+                    back = cc.asdict(fresh)
+                except Exception as e:  # noqa
+                    back = "raised %s" % type(e).__name__
+                if back != ee.values:
+                    res.violate("C02:reload-differs:empty-env-variable", "values do not come back although the bound environment variables are only set to the empty string",
+                                {"stream": "env-empty", "fmt": fmt, "saved": ee.values, "reloaded": back})
+
+
 def run(ctx, n_quick=400, n_thorough=6000):
     res = Result()
     del PENDING[:]
+    env_empty_stream(ctx, res, ctx.n(3, 40))
     P.run_stream(ctx, res, "C02", ctx.n(n_quick, n_thorough), oracle, gen_ops=gen_ops, ops_len=(3, 10),
                  schema_opts={"virtual": True}, label="save-reload")
     replies = ctx.model([r for _, _, r in PENDING])
